@@ -13,10 +13,11 @@
    semver.PyPI.Parse: a value or an error for every byte string .. C01_pypi_parse_total
    pypi.ParseDependency: total on every byte string ............... C16_parse_dependency_total
    pypi Resolve: no panic, terminates within the round limit ...... C08_resolve_total (every client and oracle)
+   maven Resolve: no panic, one pass bounded by 1+|keys answered| . C07_resolve_total, C07_absorbed_unreachable
    semver.Maven.Parse / RubyGems.Parse and their compare .......... Properties/C04_mvngem.v
    ParseConstraint / parseSet / Union / Intersect / Match ......... Properties/C04_constraints.v
    semver.NuGet/.. comparison of parsed versions never fails ..... C01_family (compare = Ok) *)
-From DepsDev Require Properties.C01_pypi Properties.C01_maven Properties.C13 Properties.C15 Properties.C16 Properties.C06 Properties.C08.
+From DepsDev Require Properties.C07 Properties.C01_pypi Properties.C01_maven Properties.C13 Properties.C15 Properties.C16 Properties.C06 Properties.C08.
 
 Definition C04_maven_compare_total := Properties.C01_maven.C01_maven_compare_total.
 Definition C04_maven_no_panic := Properties.C01_maven.C01_maven_no_panic.
@@ -30,6 +31,7 @@ Definition C04_canon_total := Properties.C13.C13_total.
 Definition C04_pypi_parse_total := Properties.C01_pypi.C01_pypi_parse_total.
 Definition C04_parse_dependency_total := Properties.C16.C16_parse_dependency_total.
 Definition C04_pypi_resolve_total := @Properties.C08.C08_resolve_total.
+Definition C04_maven_resolve_total := @Properties.C07.C07_resolve_total.
 Check C04_maven_compare_total. Check C04_marker_eval_no_panic. Check C04_interp_total. Check C04_canon_total.
 Print Assumptions C04_maven_compare_total.
 Print Assumptions C04_marker_eval_no_panic.
@@ -38,3 +40,4 @@ Print Assumptions C04_canon_total.
 Print Assumptions C04_pypi_parse_total.
 Print Assumptions C04_parse_dependency_total.
 Print Assumptions C04_pypi_resolve_total.
+Print Assumptions C04_maven_resolve_total.
